@@ -19,6 +19,9 @@ typedef Index *iterator;
 #ifndef GV_NMAX
 #define GV_NMAX 4                                /* bound on the number of graph nodes */
 #endif
+#ifndef GV_SIMPLE
+#define GV_SIMPLE 1                              /* 1: graphs without self loops and repeated entries (what the constructor builds) */
+#endif
 #ifndef GV_EMAX
 #define GV_EMAX 12                               /* bound on the number of directed adjacency entries */
 #endif
@@ -139,6 +142,9 @@ GV_CANARY("SparseMatrixOrdering_inverse_permutaion entry");
 GV_CANARY("SparseMatrixOrdering_reset entry");
 //@ entry ReverseCuthillMcKee_algorithm
 GV_CANARY("ReverseCuthillMcKee_algorithm entry");
+//@ entry ReverseCuthillMcKee_ctor1
+GV_CANARY("ReverseCuthillMcKee_ctor1 entry");
+GV_INIT_SparseMatrixOrdering_ctor0(self);      /* base-class constructor SparseMatrixOrdering() (generated from the real text) */
 //@ entry SparseMatrix_rows
 GV_CANARY("SparseMatrix_rows entry");
 //@ entry SparseMatrix_columns
@@ -161,11 +167,8 @@ GV_CANARY("SparseMatrixGraph_ctor entry");
    A[x][y] (ghost) is the adjacency relation as a Boolean matrix. */
 static bool gv_A[GV_NMAX + 1][GV_NMAX + 1];
 
-static void mk_graph(struct Adjacency *g, bool simple)
+static void mk_graph(struct Adjacency *g, Index n, Index nnz, bool simple)
 {
-  Index n, nnz;
-  __CPROVER_assume(0 <= n && n <= GV_NMAX);
-  __CPROVER_assume(0 <= nnz && nnz <= GV_EMAX);
   g->nods = n;
   Index xs = n + 2 > 3 ? n + 2 : 3;
   g->xadj.m = malloc(xs * sizeof(Index));
@@ -210,15 +213,91 @@ static bool spec_connected(Index n)
   return all;
 }
 
-void h_connected(void)
+/* Measured: heap objects of SYMBOLIC size (xadj, adjncy, and the lists the code allocates with new Index[n+1]) cost
+   16M SAT variables for n <= 3; with constant sizes 0.16M.  The harnesses therefore choose (n, nnz) symbolically and
+   dispatch to a call with CONSTANT arguments (the loop counters of fully unwound loops): every (n, nnz) inside the
+   bound is still covered in one run, each on its own path. */
+static void run_connected(Index n, Index nnz)
 {
   struct Adjacency g;
-  mk_graph(&g, 0);
-  bool want = spec_connected(g.nods);
+  mk_graph(&g, n, nnz, GV_SIMPLE);
+  if (GV_SIMPLE && (nnz % 2 != 0 || nnz > n * (n - 1)))
+    {
+      /* proved, not assumed: must be unreachable */
+      __CPROVER_assert(0, "no simple symmetric graph has an odd number of adjacency entries or more than n(n-1)");
+      return;
+    }
+  bool want = spec_connected(n);
   bool got = SparseMatrixGraph_connected(&g);
   __CPROVER_assert(got == want, "connected() == every pair of nodes is joined by a path (Warshall closure of the adjacency)");
-  __CPROVER_assert(!(g.nods == 0) || got, "the empty graph is connected");
-  __CPROVER_assert(!(g.nods >= 2 && g.xadj.m[g.nods + 1] == 0) || !got, "an edgeless graph with two or more nodes is not connected");
+  __CPROVER_assert(!(n == 0) || got, "the empty graph is connected");
+  __CPROVER_assert(!(n >= 2 && nnz == 0) || !got, "an edgeless graph with two or more nodes is not connected");
+}
+
+void h_connected(void)
+{
+  Index n_s, e_s;
+  __CPROVER_assume(0 <= n_s && n_s <= GV_NMAX && 0 <= e_s && e_s <= GV_EMAX);
+  for (Index n = 0; n <= GV_NMAX; n++)
+    for (Index e = 0; e <= GV_EMAX; e++)
+      if (n == n_s && e == e_s) run_connected(n, e);
   GV_CANARY("h_connected end");
+}
+
+/* ---- ReverseCuthillMcKee<int>(graph): perm is a permutation of 1..n with a consistent inverse ---- */
+static void run_rcm(Index n, Index nnz)
+{
+  struct Adjacency g;
+  mk_graph(&g, n, nnz, 1);
+  if (nnz % 2 != 0 || nnz > n * (n - 1))
+    {
+      __CPROVER_assert(0, "no simple symmetric graph has an odd number of adjacency entries or more than n(n-1)");
+      return;
+    }
+  struct SparseMatrixOrdering o;
+  ReverseCuthillMcKee_ctor1(&o, &g);            /* = reset(graph) = algorithm(graph); inverse_permutaion() */
+  __CPROVER_assert(o.nods == n, "ordering.nodes() == graph.nodes()");
+  __CPROVER_assert(o.perm.e - o.perm.m == n + 1 && o.invp.e - o.invp.m == n + 1, "perm and invp hold n+1 slots (1 based)");
+  bool seen[GV_NMAX + 1];
+  for (Index i = 0; i <= GV_NMAX; i++) seen[i] = 0;
+  for (Index i = 1; i <= GV_NMAX; i++)
+    if (i <= n)
+      {
+        Index p = o.perm.m[i];
+        __CPROVER_assert(1 <= p && p <= n, "perm(i) is a node of the graph");
+        if (1 <= p && p <= n)
+          {
+            __CPROVER_assert(!seen[p], "every node is numbered exactly once (perm is injective)");
+            seen[p] = 1;
+            __CPROVER_assert(o.invp.m[p] == i, "invp(perm(i)) == i");
+          }
+      }
+  for (Index i = 1; i <= GV_NMAX; i++)
+    if (i <= n)
+      {
+        __CPROVER_assert(seen[i], "every node is numbered (perm is onto)");
+        Index q = o.invp.m[i];
+        __CPROVER_assert(1 <= q && q <= n, "invp(i) is a position");
+        if (1 <= q && q <= n) __CPROVER_assert(o.perm.m[q] == i, "perm(invp(i)) == i");
+      }
+  if (n == 0)
+    {
+      /* RootedLevelStructure::root on the empty graph (its nodes == 0 branch is not reached through the ordering) */
+      struct RootedLevelStructure rls;
+      GV_INIT_RootedLevelStructure_ctor0(&rls);
+      RootedLevelStructure_root(&rls, 1, &g);
+      __CPROVER_assert(rls.adst.xadj.e - rls.adst.xadj.m == 3 && rls.adst.xadj.m[1] == 0 && rls.adst.xadj.m[2] == 0 &&
+                       rls.adst.adjncy.m == rls.adst.adjncy.e, "level structure of the empty graph: no levels, xadj(1) = xadj(2) = 0");
+    }
+}
+
+void h_rcm(void)
+{
+  Index n_s, e_s;
+  __CPROVER_assume(0 <= n_s && n_s <= GV_NMAX && 0 <= e_s && e_s <= GV_EMAX);
+  for (Index n = 0; n <= GV_NMAX; n++)
+    for (Index e = 0; e <= GV_EMAX; e++)
+      if (n == n_s && e == e_s) run_rcm(n, e);
+  GV_CANARY("h_rcm end");
 }
 //@ end
